@@ -5,6 +5,25 @@ setter, calc_prob_dist and the four standard tomography constructors.  The
 oracle is `analyse` / `tomography_shape` below: a transcription of the property
 statement that never looks at quara's validation code.  The workload is the
 complete enumeration of a bounded schedule language (see RULE / EXHAUSTIVE_SCOPE).
+
+History / combination steps (shard modes "history", "tomo-history", class 5 of
+"special"): the same hook oracles are reached through objects WITH A PAST - an
+experiment asked before and after every public list setter (query -> setter ->
+query, grow / shrink ladders with rejected setters in between), asked twice and
+in another order while a twin of the same sizes holding other objects is asked in
+between, obtained through copy() (and copy of the copy; the original afterwards),
+used after the data-generating methods, given the schedule list of another living
+experiment, built with seed_data / positional arguments; tomographies built for
+list sizes 1..3 in turn, with every usable non-default constructor option, from
+schedule lists that come out of the library, and executed repeatedly with two true
+objects while other tomographies of the same class stay alive.  Keys of verdicts
+reached in such a step end in the step's suffix (":after-query", ":after-setter",
+":second-call", ":interleaved-twin", ":via-copy", ":after-copy",
+":shared-schedule-list", ":interleaved-sizes", ":schedules-from-library",
+":option-<name>").  Only public methods and setters are used; nothing beyond the
+statement is judged (copy() of an accepted experiment is an experiment with the
+same well-formed schedule list, so it must be accepted; an accepted own-shape
+tomography must execute through generate_prob_dists_sequence as well).
 """
 import contextlib
 import copy as _copy
@@ -26,7 +45,14 @@ RULE = ("every schedule of length 0..4 over a 28-item alphabet (4 kinds x indice
         "transition (4 lists x 6 replacement lists, schedule replacement, seeded setter walks) from every accepting "
         "configuration, and every schedule of length <= 4 over the 16 well-typed items as custom `schedules` of the four "
         "tomography classes; a case is distinct by (call site, schedule list, list sizes) and non-trivial when it is "
-        "accepted by the specification or has exactly one defect class (single-fault neighbours of the language)")
+        "accepted by the specification or has exactly one defect class (single-fault neighbours of the language).  "
+        "History / combination steps: from every accepting (configuration, schedule) one case with a twin experiment of the same "
+        "sizes asked in turn and twice, query -> list setter -> query for 4 lists x 6 replacements, a grow / shrink ladder per "
+        "list with rejected setters in between, copy() and copy of the copy, the data-generating methods before and after a "
+        "setter, the living schedule list given to experiments of other sizes (positional arguments, seed_data); per tomography "
+        "class every schedule of length <= 3 over the 16 well-typed items for list sizes 1..3 in turn, 4 non-default option sets "
+        "x (own-shape lists, other shapes, every defect class, 'all'), library-made schedule lists handed to other sizes, and "
+        "repeated execution of living tomographies with two true objects")
 EXHAUSTIVE = {"quick": True, "thorough": True}
 EXHAUSTIVE_SCOPE = ("Experiment constructor: all 637,421 schedules of length 0..4 over the 28-item alphabet x 3 list "
                     "configurations (quick) / x 9 configurations plus all 16^5 length-5 schedules over the well-typed items x 4 "
@@ -55,6 +81,9 @@ ASSUMPTIONS = [
     "tuple or str subclasses, schedule containers that are not lists (tuple of well-formed schedules, None, int, iterators), "
     "the exception type of a tomography-shape rejection, the empty schedule list given to a tomography class, "
     "execution of accepted schedules that do not end in their only POVM",
+    "history steps use public methods and setters only; copy() of an experiment accepted with a well-formed list must be "
+    "accepted; the tomography classes cannot be built with is_physicality_required=True at all (zero template object), so "
+    "that option is not combined with schedules",
 ]
 
 KINDS = ("state", "povm", "gate", "mprocess")
@@ -939,7 +968,7 @@ def run_tomo(ctx, mon, fx):
 
 def twin_cfg(cfg):
     """same list sizes, another object (or placeholder) at every index"""
-    return {k: (v if v == "omit" else [None if j is None else 1 - j for j in reversed(v)]) for k, v in cfg.items()}
+    return {k: (v if v == "omit" else [None if j is None else 1 - j for j in v]) for k, v in cfg.items()}
 
 
 def probe(kind, i, e):
@@ -1047,8 +1076,12 @@ def history_case(ctx, mon, fx, cn, s, others, rng):
     a = fresh([list(s), list(s2)])
     b = fresh([list(s), list(s2)], twin_cfg(cfg))
     pair = [e for e in (a, b) if e is not None]
-    for e in pair:
-        ask(mon, e)
+    if a is not None:
+        ask(mon, a)
+    if b is not None:
+        with mon.tagged(":interleaved-twin"):
+            mon.step("twin asked after the first")
+            ask(mon, b)
     with mon.tagged(":second-call"):
         mon.step("calc_prob_dist x all (twin interleaved)")
         for e in pair:
@@ -1069,7 +1102,8 @@ def history_case(ctx, mon, fx, cn, s, others, rng):
                 break
             ask(mon, e)
             look(mon, e)
-            assign(mon, e, LISTARG[kind], new, describe(new))
+            with mon.tagged(":after-query"):
+                assign(mon, e, LISTARG[kind], new, describe(new))
             with mon.tagged(":after-setter"):
                 ask(mon, e)
                 look(mon, e)
@@ -1130,7 +1164,8 @@ def history_case(ctx, mon, fx, cn, s, others, rng):
         kind = KINDS[int(rng.integers(0, 4))]
         opts = replacement_lists(kind, fx)
         new = opts[int(rng.integers(0, len(opts)))]
-        assign(mon, e, LISTARG[kind], new, describe(new))
+        with mon.tagged(":after-query"):
+            assign(mon, e, LISTARG[kind], new, describe(new))
         with mon.tagged(":after-setter"):
             ask(mon, e)
             generate_calls(mon, e)
